@@ -66,6 +66,23 @@ impl Array {
     #[verifier::external_body]
     pub fn push_one(&mut self, v: Val) ensures final(self).arr@ == old(self).arr@.push(v), final(self).dict@ == old(self).dict@ { unimplemented!() }
 }
+// ---- C10: the order in which the dictionary part is visited
+/// the values of a dictionary in KEY order: a function of the map's content alone
+pub uninterp spec fn vals_by_key(m: Map<DKey, Val>) -> Seq<Val>;
+/// an `impl Iterator<Item = &Val>`: only the sequence of values it yields matters
+#[verifier::external_body] pub struct RefIter<'a> { _p: &'a u8 }
+impl<'a> RefIter<'a> { pub uninterp spec fn items(&self) -> Seq<Val>; }
+/// `dict.iter().sorted_unstable_by(|a, b| a.0.cmp(b.0)).map(|(_, val)| val)`: keys are unique, so sorting by key (stable or
+/// not) yields one order, whatever order the HashMap hands the entries out in
+#[verifier::external_body]
+pub fn dict_values_in_key_order<'a>(d: &'a Dict) -> (r: RefIter<'a>) ensures r.items() == vals_by_key(d@) { unimplemented!() }
+/// `dict.values()`: the values in HashMap iteration order — which depends on the per-process hash seed, so NOTHING is
+/// promised about the order (a contract that needs one fails)
+#[verifier::external_body]
+pub fn dict_values_hash_order<'a>(d: &'a Dict) -> (r: RefIter<'a>) ensures r.items().len() == vals_by_key(d@).len() { unimplemented!() }
+/// `deque.iter().chain(rest)`
+#[verifier::external_body]
+pub fn chain_refs<'a>(v: &'a VecDeque<Val>, rest: RefIter<'a>) -> (r: RefIter<'a>) ensures r.items() == v@ + rest.items() { unimplemented!() }
 /// an `impl Iterator<Item = Val>` handed to push: only the sequence of values it yields matters
 #[verifier::external_body] pub struct ValIter { _p: u8 }
 impl ValIter { pub uninterp spec fn items(&self) -> Seq<Val>; }
